@@ -282,10 +282,14 @@ Place(re, w) ==
     [] w = 2 -> [modes |-> << Mode("M0", << Pat(A1, 1) >>, << <<1, 1>> >>), Mode("M1", << Pat(re, 2), Pat(A2, 3) >>, <<>>) >>]
     [] w = 3 -> [modes |-> << Mode("M0", << PatLa(A1, 1, PosLa(re)), Pat(A2, 2) >>, <<>>) >>]
     [] w = 4 -> [modes |-> << Mode("M0", << Pat(A1, 1) >>, <<>>), Mode("M1", << PatLa(A2, 3, NegLa(re)) >>, <<>>) >>]
+    \* the lookahead of a pattern that reports the same token type as an earlier pattern with a lookahead
+    \* (only the verdict of the build is at stake here, see DESIGN 0.35 for scanning such modes)
+    [] w = 5 -> [modes |-> << Mode("M0", << PatLa(A1, 1, PosLa(A2)), PatLa(A2, 1, NegLa(re)), Pat(A3, 2) >>, <<>>) >>]
 NU == Len(UnsupPool)
-U_C15_planted == [k \in 1..(NPlantPos * NU * 4) |->
-                    Place(Planted(((k - 1) \div (NU * 4)) + 1, (((k - 1) \div 4) % NU) + 1), ((k - 1) % 4) + 1)]
-U_C15_clean == [k \in 1..(Len(Hosts) * 4) |-> Place(Hosts[((k - 1) \div 4) + 1], ((k - 1) % 4) + 1)]
+NPlace == 5
+U_C15_planted == [k \in 1..(NPlantPos * NU * NPlace) |->
+                    Place(Planted(((k - 1) \div (NU * NPlace)) + 1, (((k - 1) \div NPlace) % NU) + 1), ((k - 1) % NPlace) + 1)]
+U_C15_clean == [k \in 1..(Len(Hosts) * NPlace) |-> Place(Hosts[((k - 1) \div NPlace) + 1], ((k - 1) % NPlace) + 1)]
 U_C15 == TLCEval(U_C15_clean \o U_C15_planted)
 
 \* ---- Pipeline: a keyword list with more token types than 2 bits of group id can tell apart ----
